@@ -78,6 +78,10 @@ func main() {
 			tier = args[1]
 		}
 		evidenceDir = *outDir
+		if evidenceDir == "" && *only != "" {
+			// a partial run (-only) is a debugging aid: it must not overwrite the property's evidence
+			evidenceDir = filepath.Join(os.TempDir(), "govc-partial-evidence")
+		}
 		if evidenceDir == "" {
 			evidenceDir = filepath.Join(*verif, "evidence")
 		}
